@@ -5,14 +5,73 @@
    Model/CacheSys.v (the specification graph changes during the history: re-basing a
    specification reaches the lookup objects subscribed to it or to a descendant).
 
-   Histories are lists of [cop]; [cwf_hist fl 0 h] = the well-formed histories of one registry
-   flavour [fl] (Spec/RegChain.v: registries are addressed after their creation, bases come
-   earlier in creation order; rebuild() included).  [call] (what registered factories return) and the
-   initial specification graph are arbitrary. *)
+   Histories are lists of [cop].  [cmwf_hist [] h] = the well-formed MIXED histories
+   (Spec/RegChain.mwf_op): registries are addressed after their creation, bases come earlier in
+   creation order (acyclic registry graph), an invalidating registry has invalidating bases only, a
+   verifying registry may have bases of EITHER flavour (the persistent site manager over the global
+   registry - the combination that matters in practice); rebuild() included.  [cwf_hist fl 0 h] are
+   the histories of one flavour [fl]; they are mixed histories (C06_homogeneous_histories_are_mixed)
+   and the theorems without the suffix _mixed are the corresponding corollaries.  [call] (what
+   registered factories return) and the initial specification graph are arbitrary. *)
 From Coq Require Import List Arith Bool.
 Import ListNotations.
 From ZI Require Import Model.Ro Model.Adapter Model.Lookup Model.RegSys Spec.RegChain Model.CacheSys
   Proofs.CacheSys.
+
+(* ---- mixed histories *)
+
+(* History form (the property as stated): inside any well-formed history, a lookup-family call
+   answers what it answers after the same mutations (registrations, subscriptions, registry
+   __bases__, rebuild(), specification __bases__ incl. class / instance declaration changes) with
+   every earlier query erased, i.e. on registries that performed no earlier lookup. *)
+Theorem C05_cache_transparent_mixed :
+  forall (call : value -> list nat -> option nat) (g : graph) (ifs : list bool)
+         (pre : list cop) (q : rop) (post : list cop),
+    cmwf_hist [] (pre ++ [CReg q]) = true -> is_lookup q = true ->
+    nth (length pre) (crun call (mkCS g ifs []) (pre ++ CReg q :: post)) [] =
+    nth (length (erase_lookups pre)) (crun call (mkCS g ifs []) (erase_lookups pre ++ [CReg q])) [].
+Proof. exact cache_transparent_mixed. Qed.
+Print Assumptions C05_cache_transparent_mixed.
+
+(* State form: at every reachable state, emptying every cache changes no lookup-family answer. *)
+Theorem C05_cache_transparent_state_mixed :
+  forall (call : value -> list nat -> option nat) (g : graph) (ifs : list bool)
+         (ops : list cop) (q : rop),
+    cmwf_hist [] (ops ++ [CReg q]) = true -> is_lookup q = true ->
+    let st := cfinal call (mkCS g ifs []) ops in
+    snd (cstep call st (CReg q)) =
+    snd (cstep call (mkCS (cs_g st) (cs_if st) (drop_caches (cs_sys st))) (CReg q)).
+Proof. exact cache_transparent_state_mixed. Qed.
+Print Assumptions C05_cache_transparent_state_mixed.
+
+(* Static world (Model/RegSys.v alone, any world W). *)
+Theorem C05_cache_transparent_static_mixed :
+  forall (W : world) (call : value -> list nat -> option nat) (pre : list rop) (q : rop),
+    mwf_hist [] (pre ++ [q]) = true -> is_lookup q = true ->
+    snd (step W call (final W call [] pre) q) =
+    snd (step W call (final W call [] (filter is_mutation pre)) q).
+Proof. exact cache_transparent_static_mixed. Qed.
+Print Assumptions C05_cache_transparent_static_mixed.
+
+(* What the answers are: the entry point run on EMPTY caches over the registries of the C3 order
+   of the current registry graph, in the current world. *)
+Theorem C05_answers_are_uncached_mixed :
+  forall (call : value -> list nat -> option nat) (g : graph) (ifs : list bool)
+         (ops : list cop) (q : rop),
+    cmwf_hist [] (ops ++ [CReg q]) = true -> is_lookup q = true ->
+    let st := cfinal call (mkCS g ifs []) ops in
+    snd (cstep call st (CReg q)) =
+    pure_answer (world_of (cs_g st) (cs_if st)) call (chain_regs (cs_sys st)) q.
+Proof. exact answers_are_uncached_mixed. Qed.
+Print Assumptions C05_answers_are_uncached_mixed.
+
+(* every single-flavour history is a mixed history *)
+Theorem C05_homogeneous_histories_are_mixed :
+  forall (fl : flavour) (h : list cop), cwf_hist fl 0 h = true -> cmwf_hist [] h = true.
+Proof. exact (fun fl h => cwf_cmwf fl h 0). Qed.
+Print Assumptions C05_homogeneous_histories_are_mixed.
+
+(* ---- single-flavour corollaries (the names of the first version of this file) *)
 
 (* History form (the property as stated): inside any history, a lookup-family call answers what
    it answers after the same mutations (registrations, subscriptions, registry __bases__,
@@ -164,6 +223,34 @@ Proof. reflexivity. Qed.
 
 Example ex_ver_flips :
   crun ex_call (mkCS ex_g ex_ifs []) ex_ver = [[]; []; []; []; [1; 8]; []; []; [0]; [7]].
+Proof. vm_compute. reflexivity. Qed.
+
+(* a verifying registry over two invalidating ones (site manager over the global registry):
+   registration in the top registry, re-basing of the middle one, rebuild of the top one, and a
+   specification re-based under the verifying registry's cached key *)
+Definition ex_mixed : list cop :=
+  [CReg (ONewReg Push []); CReg (ONewReg Push [0]); CReg (ONewReg Verifying [1]);
+   CReg (QLookup 2 [2] 3 (NStr 0));
+   CReg (ORegister 0 [Some 1] 3 0 (Some v7));
+   CReg (QLookup 2 [2] 3 (NStr 0));
+   CReg (OSetRegBases 1 []);
+   CReg (QLookup 2 [2] 3 (NStr 0));
+   CReg (OSetRegBases 1 [0]);
+   CReg (ORegister 0 [Some 1] 3 0 (Some (mkV 8 8)));
+   CReg (ORebuild 0);
+   CReg (QLookup 2 [2] 3 (NStr 0));
+   CSetSpecBases 2 [];
+   CReg (QLookup 2 [2] 3 (NStr 0))].
+
+Example ex_mixed_wf : cmwf_hist [] ex_mixed = true.
+Proof. reflexivity. Qed.
+
+Example ex_mixed_not_homogeneous : cwf_hist Push 0 ex_mixed = false /\ cwf_hist Verifying 0 ex_mixed = false.
+Proof. split; reflexivity. Qed.
+
+Example ex_mixed_flips :
+  crun ex_call (mkCS ex_g ex_ifs []) ex_mixed =
+  [[]; []; []; [0]; []; [1; 7]; []; [0]; []; []; []; [1; 8]; []; [0]].
 Proof. vm_compute. reflexivity. Qed.
 
 (* the spec-rebase frame is not vacuous: one registry is reached, the other keeps its caches *)
